@@ -209,3 +209,31 @@ Definition mkkind (a m : bool) : kind := {| annot := a; multi := m |}.
 (* the model predicts exactly what the implementation showed, send by send *)
 Definition check_run (B : Z) (k : kind) (fs : list feed) (got : list obs) : bool :=
   eqb_list eqb_obs (map (observe k) (run B k fs)) got.
+
+(* ---- capture_epoch used stand-alone (added for the coverage audit; nothing above depends on it) ----
+   capture_epoch(epoch_s0, epoch_samples, info, target) fed with (slb, data) tuples: per send nothing,
+   target(data) + StopIteration, or target(empty "missed" PipelineData) + StopIteration *)
+Inductive cobs := CNone | CData (d : list Z) | CMiss.
+Fixpoint capture_run (c : capture) (sends : list (Z * list Z)) : list cobs :=
+  match sends with
+  | [] => []
+  | (s, d) :: t => match cap_send c s d with
+                   | CCont c' => CNone :: capture_run c' t
+                   | CDone x => [CData x]
+                   | CMissed => [CMiss]
+                   end
+  end.
+Definition eqb_cobs (a b : cobs) : bool :=
+  match a, b with
+  | CNone, CNone => true
+  | CData x, CData y => eqb_listZ x y
+  | CMiss, CMiss => true
+  | _, _ => false
+  end.
+Definition check_capture (lo n : Z) (sends : list (Z * list Z)) (got : list cobs) : bool :=
+  eqb_list eqb_cobs (capture_run (new_capture (mkreq 0 lo n 0)) sends) got.
+
+(* ---- empty_queue_cb=None (added for the coverage audit): the callback is never armed ---- *)
+Definition xinit_nocb : xstate := {| tlb := 0; pending := []; prior := []; armed := false |}.
+Definition check_run_nocb (B : Z) (k : kind) (fs : list feed) (got : list obs) : bool :=
+  eqb_list eqb_obs (map (observe k) (map snd (trace B k xinit_nocb fs))) got.
